@@ -13,10 +13,14 @@ package bytesconv
 //@ rec func dval(x []byte, k int) int = k <= 0 ? 0 : 10*dval(x, k-1) + (x[k-1] - '0')
 //@ rec func pow10(k int) int = k <= 0 ? 1 : 10*pow10(k-1)
 
+// underscoreOK accepts every text without an underscore (digits, sign, junk:
+// the digit loop rejects junk later), so it cannot turn a number into an error.
 //@ func underscoreOK(s []byte) (ok bool)
 //@   props C03
+//@   ensures (forall j int :: 0 <= j < len(s) ==> s[j] != '_') ==> ok
 //@   loop 1:
-//@     invariant 0 <= i <= len(s)
+//@     invariant 0 <= i <= len(s) && s === old(s)[sgn(old(s)):]
+//@     invariant (forall j int :: 0 <= j < len(old(s)) ==> old(s)[j] != '_') ==> saw != '_'
 //@     decreases len(s) - i
 
 // ParseUint, as the reader uses it (base 10, full width): a nil error means
@@ -28,8 +32,10 @@ package bytesconv
 //@   ensures err == nil ==> len(s) > 0 && (forall j int :: 0 <= j < len(s) ==> isdig(s[j])) && n == dval(s, len(s))
 //@   ensures err != nil ==> typeis(err, *NumError) && as(err, *NumError) != nil && fresh(as(err, *NumError))
 //@   ensures err != nil && as(err, *NumError).Err == ErrRange ==> n == 18446744073709551615
+//@   ensures 0 < len(s) <= 19 && (forall j int :: 0 <= j < len(s) ==> isdig(s[j])) ==> err == nil
 //@   loop 1:
 //@     invariant 0 <= idx() <= len(s) && n == dval(s, idx()) && 0 <= n <= 18446744073709551615
+//@     invariant len(s) <= 19 ==> n < pow10(idx())
 //@     invariant forall j int :: 0 <= j < idx() ==> isdig(s[j])
 //@     invariant base == 10 && cutoff == 1844674407370955162 && maxVal == 18446744073709551615 && !base0 && s === s0
 //@     decreases len(s) - idx()
